@@ -4,10 +4,17 @@ The dynamic semantics SyltSem (TLA+) is the reference: TLC runs every program of
 (SyltGen: every construct in every type-compatible child position of every other construct, in six harness
 contexts) through the specification and prints the expected observation (print events with value snapshots,
 terminal status). Each program is rendered to Sylt source, compiled by the real compiler, the emitted Lua is run
-in minilua, and the observed trace must equal the specified one. Thorough: seeded random larger programs from the
-harness generator are executed by the specification (MODE=file) and compared the same way.
+in minilua, and the observed trace must equal the specified one.
+
+Second direction (trace validation, docs/C01-corpus.md): programs that were NOT generated from the specification - the
+maintainers' own programs under /repo/tests - are compiled from disk by the real compiler and run in minilua; the
+harness (c01c) records [file, program as the real parser read it in SyltAst convention, printed lines, terminal
+status]; TLC (spec/Trace_Sem.tla) executes each recorded program with SyltSem and ACCEPTs the record iff SyltSem's
+print texts and status equal the recorded ones, REJECTs it otherwise (a violation `C01|corpus|<file>|<class>`), or
+DROPs it when SyltSem leaves its model. Thorough: every in-model file; quick: a seeded sample of 40.
 """
 import os
+import random
 import vlib
 
 PID = "C01"
@@ -70,6 +77,201 @@ def replay_cases(wd, cases, ev, verdicts, name, pid=PID, env=None):
     return results, counts
 
 
+# --------------------------------------------------------------------------- corpus trace validation
+
+CORPUS_DIR = "/repo/tests"
+TRACE_TAGS = ("ACCEPT", "REJECT", "DROP")
+
+
+def trace_record(r):
+    return {"file": r["file"], "tops": r["tops"], "prints": r["prints"], "status": r["status"]}
+
+
+def run_trace(wd, name, recs):
+    """TLC decides every record: returns {file: (verdict, payload)}; one line per record or it is a tool error."""
+    tf = os.path.join(wd, name + "-trace.ndjson")
+    vlib.write_ndjson(tf, recs)
+    r = vlib.tlc("Trace_Sem", wd=wd, env={"TRACE": tf}, timeout=900, xmx="8g", workers=4, coverage=False,
+                 tags=TRACE_TAGS, out_file=os.path.join(wd, "tlc-Trace_Sem-%s.out" % name))
+    vlib.require_tlc_ok(r, "Trace_Sem over the recorded corpus runs (%s)" % name)
+    out = {}
+    for tag, p in r.records:
+        out[p["rec"]] = (tag, p)        # Judge is evaluated once per record; a re-evaluation prints the same line
+    if sorted(out) != list(range(1, len(recs) + 1)):
+        vlib.tool_error("Trace_Sem (%s): %d verdict lines for %d records" % (name, len(out), len(recs)))
+    return r, [out[i + 1] for i in range(len(recs))]
+
+
+def walk_nodes(n, f):
+    if isinstance(n, dict):
+        f(n)
+        for v in n.values():
+            walk_nodes(v, f)
+    elif isinstance(n, list):
+        for v in n:
+            walk_nodes(v, f)
+
+
+def bump_assert_literal(tops):
+    """A copy of the program in which the first int literal that is a direct operand of a `<=>` is one larger."""
+    import copy
+    t = copy.deepcopy(tops)
+    done = []
+
+    def visit(n):
+        if not done and n.get("k") == "bin" and n.get("op") == "<=>":
+            for side in ("l", "r"):
+                if n[side].get("k") == "int":
+                    n[side]["v"] += 1
+                    done.append(1)
+                    return
+    walk_nodes(t, visit)
+    return t if done else None
+
+
+PROBE_DIR = os.path.join(vlib.ROOT, "checks", "C01-probes")
+
+
+def probe_phase(ctx, wd, ev, verdicts):
+    """Hand-written programs (checks/C01-probes/*.sy) that print the results of the library helpers SyltSem gained for
+    the corpus direction (number helpers, list/maybe/dict/set operations, text of values): they bind those additions of
+    the SPECIFICATION to the real runtime the same way (record, then TLC decides). Every probe must be judged."""
+    rf = os.path.join(wd, "probe-records.ndjson")
+    vlib.harness("c01c", ["record", PROBE_DIR, rf])
+    recs = vlib.read_ndjson(rf)
+    bad = [r["file"] for r in recs if not (r["accepted"] and r["in_model"])]
+    if bad or not recs:
+        vlib.tool_error("probe programs not accepted by the compiler / outside the model: %s" % bad)
+    _, vs = run_trace(wd, "probes", [trace_record(x) for x in recs])
+    n = 0
+    for rec, (tag, p) in zip(recs, vs):
+        if tag == "DROP":
+            vlib.tool_error("probe %s was dropped by the specification (%s)" % (rec["file"], p["why"]))
+        if tag == "REJECT":
+            verdicts.add("%s|probe|%s|%s" % (PID, rec["file"], p["why"]),
+                         "probe %s: %s at print %d (spec %r, recorded %r), status spec=%s recorded=%s" % (
+                             rec["file"], p["why"], p["at"], p["want"], p["got"], p["spec_status"], p["rec_status"]),
+                         {"probe": {"file": rec["file"]}, "verdict": p, "prints": rec["prints"], "status": rec["status"]})
+        else:
+            n += 1
+    ev.set(probes={"programs": len(recs), "validated": n, "print_events": sum(len(r["prints"]) for r in recs)})
+    return n
+
+
+def corpus_phase(ctx, wd, ev, verdicts, only=None):
+    rf = os.path.join(wd, "corpus-records.ndjson")
+    vlib.harness("c01c", ["record", CORPUS_DIR, rf] + ([only] if only else []))
+    recs = vlib.read_ndjson(rf)
+    accepted = [r for r in recs if r["accepted"]]
+    inmodel = [r for r in accepted if r["in_model"]]
+    reasons = {}
+    for r in accepted:
+        for w in r["reasons"]:
+            reasons[w] = reasons.get(w, 0) + 1
+    chosen = inmodel
+    if ctx.tier == "quick" and not only and len(inmodel) > 40:
+        # seeded sample, stratified so that the interesting strata are never empty: runs that do not end `done`,
+        # runs that print, multi-file programs, then anything
+        rng = random.Random(vlib.seed())
+        pick = {}
+        for stratum, quota in ((lambda x: x["status"] != "done", 3), (lambda x: bool(x["prints"]), 8),
+                               (lambda x: x.get("modules", 1) > 1, 5), (lambda x: True, 40)):
+            pool = [x for x in inmodel if stratum(x) and x["file"] not in pick]
+            for x in rng.sample(pool, min(len(pool), min(quota, 40 - len(pick)))):
+                pick[x["file"]] = x
+        chosen = sorted(pick.values(), key=lambda r: r["file"])
+    if not chosen:
+        vlib.tool_error("corpus: no in-model program among %d accepted files" % len(accepted))
+
+    r, verdicts_by_rec = run_trace(wd, "corpus", [trace_record(x) for x in chosen])
+    counts = {"ACCEPT": 0, "REJECT": 0, "DROP": 0}
+    drops = {}
+    validated = []
+    for rec, (tag, p) in zip(chosen, verdicts_by_rec):
+        counts[tag] += 1
+        if tag == "DROP":
+            drops[p["why"]] = drops.get(p["why"], 0) + 1
+        elif tag == "ACCEPT":
+            validated.append(rec)
+        else:
+            verdicts.add("%s|corpus|%s|%s" % (PID, rec["file"], p["why"]),
+                         "recorded run of %s is not the behaviour SyltSem assigns to it: %s at print %d (spec %r, recorded %r), "
+                         "status spec=%s recorded=%s" % (rec["file"], p["why"], p["at"], p["want"], p["got"], p["spec_status"], p["rec_status"]),
+                         {"corpus": {"file": rec["file"]}, "verdict": p, "prints": rec["prints"], "status": rec["status"],
+                          "detail": rec.get("detail"), "tops": rec["tops"]})
+
+    # what the validated programs exercise (measured on the recorded programs)
+    kinds, builtins = {}, {}
+
+    def visit(n):
+        k = n.get("k")
+        if isinstance(k, str):
+            kinds[k] = kinds.get(k, 0) + 1
+            if k == "std":
+                builtins[n["name"]] = builtins.get(n["name"], 0) + 1
+    for rec in validated:
+        walk_nodes(rec["tops"], visit)
+    judged = counts["ACCEPT"] + counts["REJECT"]
+    floor = 20 if ctx.tier == "quick" else 100
+    if not only and judged < floor:
+        vlib.tool_error("vacuity: only %d corpus programs were judged by Trace_Sem (need %d)" % (judged, floor))
+    if not only and (len(kinds) < 20 or sum(1 for x in validated if x["prints"]) < 2 or
+                     not any(x["status"] != "done" for x in chosen)):
+        vlib.tool_error("vacuity: validated corpus programs exercise too little (%d node kinds)" % len(kinds))
+
+    # negative controls: (a) a recorded print altered / (b) the recorded status flipped / (c) the PROGRAM altered under an
+    # unchanged recording (the literal of an assertion bumped) - TLC must reject every one of them
+    neg, negkind = [], []
+    for rec in validated:
+        if rec["prints"]:
+            d = trace_record(rec)
+            d["prints"] = list(rec["prints"])
+            d["prints"][len(d["prints"]) // 2] += "x"
+            neg.append(d); negkind.append("print-altered")
+            d = trace_record(rec)
+            d["prints"] = rec["prints"][:-1]
+            neg.append(d); negkind.append("print-dropped")
+    for rec in validated[:60]:
+        d = trace_record(rec)
+        d["status"] = "assert_failed" if rec["status"] == "done" else "done"
+        neg.append(d); negkind.append("status-flipped")
+    nprog = 0
+    for rec in validated:
+        t = bump_assert_literal(rec["tops"])
+        if t is not None and rec["status"] == "done" and nprog < 60:
+            d = trace_record(rec)
+            d["tops"] = t
+            neg.append(d); negkind.append("program-altered")
+            nprog += 1
+    negres = {}
+    if neg and not only:
+        _, nv = run_trace(wd, "corpus-neg", neg)
+        for kind, (tag, p) in zip(negkind, nv):
+            negres.setdefault(kind, {"REJECT": 0, "ACCEPT": 0, "DROP": 0})[tag] += 1
+        for kind in ("print-altered", "print-dropped", "status-flipped"):
+            c = negres.get(kind, {})
+            if c.get("ACCEPT", 0) or c.get("DROP", 0) or not c.get("REJECT", 0):
+                vlib.tool_error("negative control (%s): corrupted recordings were not all rejected: %s" % (kind, c))
+        c = negres.get("program-altered", {})
+        # an altered assertion that is never executed changes nothing; most are executed
+        if c.get("REJECT", 0) < max(1, (c.get("REJECT", 0) + c.get("ACCEPT", 0)) // 2):
+            vlib.tool_error("negative control (program-altered): SyltSem is not sensitive to the programs it is given: %s" % c)
+
+    ev.set(corpus={
+        "files_total": len(recs), "accepted_by_compiler": len(accepted), "in_model": len(inmodel),
+        "submitted_to_tlc": len(chosen), "validated": counts["ACCEPT"], "rejected": counts["REJECT"],
+        "dropped_by_spec": drops, "out_of_model_by_reason": reasons,
+        "multi_file_programs_validated": sum(1 for x in validated if x.get("modules", 1) > 1),
+        "validated_with_prints": sum(1 for x in validated if x["prints"]),
+        "validated_not_done": sum(1 for x in validated if x["status"] != "done"),
+        "ast_nodes_validated": sum(x.get("nodes", 0) for x in validated),
+        "node_kinds": kinds, "builtins": builtins,
+        "negative_controls": negres, "tlc_states": r.distinct, "tlc_wall_s": round(r.wall_s, 1),
+        "samples": [{"file": x["file"], "prints": x["prints"][:3], "status": x["status"]} for x in validated[:3]],
+    })
+    return counts["ACCEPT"], sum(sum(c.values()) for c in negres.values())
+
+
 def run(ctx):
     tier = ctx.tier
     wd = vlib.workdir(PID)
@@ -80,6 +282,22 @@ def run(ctx):
     if ctx.replay:
         import json
         rp = json.load(open(ctx.replay))["replay"]
+        if "probe" in rp:
+            vlib.build_harness(["c01c"])
+            probe_phase(ctx, wd, ev, verdicts)
+            ev.set(samples=[rp["probe"]], evaluations=1, distinct_nontrivial=1)
+            rc = verdicts.finish()
+            ev.violations = len(verdicts.violations)
+            ev.write()
+            return rc
+        if "corpus" in rp:
+            vlib.build_harness(["c01c"])
+            corpus_phase(ctx, wd, ev, verdicts, only=rp["corpus"]["file"])
+            ev.set(samples=[rp["corpus"]], evaluations=1, distinct_nontrivial=1)
+            rc = verdicts.finish()
+            ev.violations = len(verdicts.violations)
+            ev.write()
+            return rc
         cases = [rp]
         results, counts = replay_cases(wd, cases, ev, verdicts, "replay")
         print(results[0].get("source", ""))
@@ -119,16 +337,21 @@ def run(ctx):
     if ncounts.get("mismatch", 0) != len(neg):
         vlib.tool_error("negative control: %d of %d corrupted traces were accepted" % (len(neg) - ncounts.get("mismatch", 0), len(neg)))
 
-    ev.set(traces_validated_against_impl=n_run, programs=len(cases), evaluations=len(cases),
+    n_corpus, n_corpus_neg = corpus_phase(ctx, wd, ev, verdicts)
+    n_corpus += probe_phase(ctx, wd, ev, verdicts)
+
+    ev.set(traces_validated_against_impl=n_run + n_corpus, programs=len(cases), evaluations=len(cases),
            distinct_nontrivial=len(cases), verdict_counts=counts, constructs=len(constructs),
-           rejected_by_compiler=rejected, negative_controls_rejected=len(neg), exhaustive=True,
+           rejected_by_compiler=rejected, negative_controls_rejected=len(neg) + n_corpus_neg, exhaustive=True,
            known_findings_hit=verdicts.known_hits,
            rule="every program of SyltGen's pairwise-nesting universe (outer construct x hole x inner construct x default "
                 "fillers x harness context), distinct by AST hash; all are non-trivial (each prints >= 2 events)",
            samples=[{"id": c["id"], "expected_prints": len(c["out"]), "status": c["status"]} for c in cases[:2] + cases[len(cases) // 2:len(cases) // 2 + 2]])
     ev.assume("minilua stands in for Lua 5.3 (no Lua interpreter exists in the sandbox)",
               "numbers: |n| < 10^6, floats are dyadic rationals; programs outside the model are dropped, never judged",
-              "a generated program the compiler rejects is counted, not reported (no listed property promises completeness)")
+              "a generated program the compiler rejects is counted, not reported (no listed property promises completeness)",
+              "corpus direction: the converter from the real parser's AST to SyltAst (lexical scoping, module flattening, std names) is trusted "
+              "to preserve the program; programs using constructs or library functions SyltSem does not evaluate are counted, never judged")
     rc = verdicts.finish()
     ev.violations = len(verdicts.violations)
     ev.write()
